@@ -5,7 +5,9 @@ import (
 	"bufio"
 	"bytes"
 	"context"
+	"crypto"
 	"crypto/sha256"
+	"encoding/base64"
 	"encoding/hex"
 	"encoding/json"
 	"errors"
@@ -52,6 +54,11 @@ type step map[string]any
 type script struct {
 	ID    string `json:"id"`
 	Steps []step `json:"steps"`
+	// Default[""] is the receiver answer once the scripted answers are used up (default "ok")
+	Default map[string]string `json:"default,omitempty"`
+	Restarts int `json:"restarts,omitempty"` // extra clean restarts at the end (budget scenarios)
+	// Defects selects, per abstract class, the concrete defect (or valid variant) used in this script
+	Defects map[string]string `json:"defects,omitempty"`
 }
 
 type input struct {
@@ -159,7 +166,7 @@ func buildWorld(t *testing.T, in input) *world {
 		if err != nil {
 			t.Fatal(err)
 		}
-		st, err := dag.NewState(db, dag.NewPrevTransactionsVerifier(), dag.NewTransactionSignatureVerifier(nil))
+		st, err := dag.NewState(db, dag.NewPrevTransactionsVerifier(), dag.NewTransactionSignatureVerifier(stubResolver{}))
 		if err != nil {
 			t.Fatal(err)
 		}
@@ -198,22 +205,141 @@ func (w *world) build(n string, a attr, top dag.Transaction) {
 	}
 	payload := []byte("payload-of-" + n)
 	ph := sha256.Sum256(payload)
+	phHex := []byte(hex.EncodeToString(ph[:]))
 	h := txforge.TxHeaders(key, prevs, lc, time.Now().Unix(), "application/x-verif")
-	raw := txforge.Compact(h, []byte(hex.EncodeToString(ph[:])), key)
-	if !a.WF {
-		switch a.Defect {
-		case "", "alg-none":
-			h["alg"] = "none"
-			raw = txforge.Compact(h, []byte(hex.EncodeToString(ph[:])), key)
-		case "no-crit":
-			delete(h, "crit")
-			raw = txforge.Compact(h, []byte(hex.EncodeToString(ph[:])), key)
-		case "kid-and-jwk":
-			h["kid"] = "did:nuts:x#k"
-			raw = txforge.Compact(h, []byte(hex.EncodeToString(ph[:])), key)
-		}
+	raw := txforge.Compact(h, phHex, key)
+	other := txforge.NewKey()
+	rawHeader := func(mut func(string) string) []byte {
+		hb, _ := json.Marshal(h)
+		return txforge.CompactRaw([]byte(mut(string(hb))), phHex, key)
 	}
-	if !a.Sig {
+	switch a.Defect {
+	case "":
+		if !a.WF {
+			h["alg"] = "none"
+			raw = txforge.Compact(h, phHex, key)
+		}
+	// ---- malformed: must never be admitted
+	case "alg-none":
+		h["alg"] = "none"
+		raw = txforge.Compact(h, phHex, key)
+		hs, ps, _ := txforge.Split(raw)
+		raw = []byte(hs + "." + ps + ".")
+	case "alg-hs256":
+		h["alg"] = "HS256"
+		jb, _ := json.Marshal(key.JWK())
+		raw = txforge.HS256(h, phHex, jb)
+	case "alg-rs256", "alg-es256k", "alg-eddsa":
+		h["alg"] = map[string]string{"alg-rs256": "RS256", "alg-es256k": "ES256K", "alg-eddsa": "EdDSA"}[a.Defect]
+		raw = txforge.Compact(h, phHex, key)
+	case "no-crit":
+		delete(h, "crit")
+		raw = txforge.Compact(h, phHex, key)
+	case "crit-without-lc":
+		h["crit"] = []string{"sigt", "ver", "prevs"}
+		raw = txforge.Compact(h, phHex, key)
+	case "missing-sigt", "missing-ver", "missing-prevs", "missing-lc", "missing-cty":
+		delete(h, strings.TrimPrefix(a.Defect, "missing-"))
+		raw = txforge.Compact(h, phHex, key)
+	case "sigt-string":
+		h["sigt"] = "1700000000"
+		raw = txforge.Compact(h, phHex, key)
+	case "ver-string":
+		h["ver"] = "2"
+		raw = txforge.Compact(h, phHex, key)
+	case "ver-3":
+		h["ver"] = 3
+		raw = txforge.Compact(h, phHex, key)
+	case "ver-fraction":
+		raw = rawHeader(func(s string) string { return strings.Replace(s, `"ver":2`, `"ver":2.9`, 1) })
+	case "prevs-string":
+		h["prevs"] = "abc"
+		raw = txforge.Compact(h, phHex, key)
+	case "prevs-nonhex":
+		h["prevs"] = []string{strings.Repeat("zz", 32)}
+		raw = txforge.Compact(h, phHex, key)
+	case "prevs-short":
+		h["prevs"] = []string{"abcd"}
+		raw = txforge.Compact(h, phHex, key)
+	case "prevs-number":
+		h["prevs"] = []any{1}
+		raw = txforge.Compact(h, phHex, key)
+	case "lc-string":
+		h["lc"] = fmt.Sprint(lc)
+		raw = txforge.Compact(h, phHex, key)
+	case "lc-fraction":
+		raw = rawHeader(func(s string) string { return strings.Replace(s, fmt.Sprintf(`"lc":%d`, lc), fmt.Sprintf(`"lc":%d.5`, lc), 1) })
+	case "lc-plus-2-32":
+		raw = rawHeader(func(s string) string {
+			return strings.Replace(s, fmt.Sprintf(`"lc":%d`, lc), fmt.Sprintf(`"lc":%d`, int64(lc)+4294967296), 1)
+		})
+	case "lc-minus-2-32":
+		raw = rawHeader(func(s string) string {
+			return strings.Replace(s, fmt.Sprintf(`"lc":%d`, lc), fmt.Sprintf(`"lc":%d`, int64(lc)-4294967296), 1)
+		})
+	case "lc-negative":
+		h["lc"] = -1
+		raw = txforge.Compact(h, phHex, key)
+	case "kid-and-jwk":
+		h["kid"] = "did:nuts:x#k"
+		raw = txforge.Compact(h, phHex, key)
+	case "no-kid-no-jwk":
+		delete(h, "jwk")
+		raw = txforge.Compact(h, phHex, key)
+	case "jwk-private":
+		h["jwk"] = key.PrivJWK()
+		raw = txforge.Compact(h, phHex, key)
+	case "cty-no-slash":
+		h["cty"] = "foo"
+		raw = txforge.Compact(h, phHex, key)
+	case "payload-nonhex":
+		raw = txforge.Compact(h, []byte("not a hash"), key)
+	case "two-signatures":
+		h2 := txforge.TxHeaders(other, prevs, lc, time.Now().Unix(), "application/x-verif")
+		raw = txforge.GeneralJSON(phHex, []map[string]any{h, h2}, []txforge.Key{key, other})
+	case "zero-signatures":
+		raw = []byte(`{"payload":"` + hex.EncodeToString(ph[:]) + `","signatures":[]}`)
+	case "truncated":
+		raw = raw[:len(raw)/2]
+	case "empty":
+		raw = []byte{}
+	// ---- re-encodings of a valid transaction (same signature, different bytes => different ref)
+	case "flattened-json":
+		raw = txforge.Flattened(raw)
+	case "general-json":
+		raw = txforge.General(raw)
+	// ---- signature does not verify
+	case "sig-flipped":
+		raw = txforge.FlipSig(raw)
+	case "sig-other-key":
+		raw = txforge.Compact(h, phHex, other) // embedded jwk is key, signed by other
+	case "sig-header-altered":
+		hs, ps, ss := txforge.Split(raw)
+		h["sigt"] = time.Now().Unix() + 7
+		hb, _ := json.Marshal(h)
+		_ = hs
+		raw = []byte(base64url(hb) + "." + ps + "." + ss)
+	case "sig-payload-altered":
+		hs, _, ss := txforge.Split(raw)
+		ph2 := sha256.Sum256([]byte("other payload"))
+		raw = []byte(hs + "." + base64url([]byte(hex.EncodeToString(ph2[:]))) + "." + ss)
+	case "kid-unknown":
+		delete(h, "jwk")
+		h["kid"] = "did:nuts:unknown#k1"
+		raw = txforge.Compact(h, phHex, key)
+	case "kid-wrong-key":
+		delete(h, "jwk")
+		h["kid"] = "did:nuts:known#k1" // resolver returns knownKey, signed by other
+		raw = txforge.Compact(h, phHex, other)
+	// ---- valid variants
+	case "kid-ok":
+		delete(h, "jwk")
+		h["kid"] = "did:nuts:known#k1"
+		raw = txforge.Compact(h, phHex, knownKey)
+	default:
+		panic("unknown defect " + a.Defect)
+	}
+	if !a.Sig && a.Defect == "" {
 		raw = txforge.FlipSig(raw)
 	}
 	c := &ctx{name: n, a: a, raw: raw, payload: payload, clock: uint32(lc)}
@@ -226,6 +352,51 @@ func (w *world) build(n string, a attr, top dag.Transaction) {
 	}
 	w.txs[n] = c
 	w.byRef[c.ref] = c
+}
+
+// variant returns a world whose universe is rebuilt with the given concrete defects (same base chain/template).
+func (w *world) variant(defects map[string]string) *world {
+	if len(defects) == 0 {
+		return w
+	}
+	v := *w
+	v.txs = map[string]*ctx{}
+	v.byRef = map[hash.SHA256Hash]*ctx{}
+	uni := map[string]attr{}
+	for n, a := range w.in.Universe {
+		if d, ok := defects[n]; ok {
+			a.Defect = d
+		}
+		uni[n] = a
+	}
+	var top dag.Transaction
+	if len(w.baseTxs) > 0 {
+		top = w.baseTxs[len(w.baseTxs)-1]
+	}
+	names := make([]string, 0, len(uni))
+	for n := range uni {
+		names = append(names, n)
+	}
+	sort.Strings(names)
+	done := map[string]bool{}
+	for len(done) < len(names) {
+		for _, n := range names {
+			if done[n] {
+				continue
+			}
+			ready := true
+			for _, p := range uni[n].Prevs {
+				if _, known := uni[p]; known && !done[p] {
+					ready = false
+				}
+			}
+			if ready {
+				v.build(n, uni[n], top)
+				done[n] = true
+			}
+		}
+	}
+	return &v
 }
 
 func copyFile(src, dst string) error {
@@ -267,11 +438,28 @@ type run struct {
 	respQ    map[string][]string // sub/tx -> scripted responses (consumed per call)
 	addErr   map[string]error
 	stepNo   int
-	crashAt  string // "recv:<sub>/<tx>": crash when that receiver call happens
+	defResp  string
+	fatalGen map[string]int
+	killed   bool // the incarnation died inside a receiver; steps until the scripted Crash cannot happen
+	restarts int
+	actors   map[string]bool
 	gen      int
 }
 
+var knownKey = txforge.NewKey()
+
+func base64url(b []byte) string { return base64.RawURLEncoding.EncodeToString(b) }
+
+// stubResolver resolves did:nuts:known#k1 to knownKey and nothing else (the resolution history itself is
+// the business of the VDR, see DidStore.tla).
 type stubResolver struct{}
+
+func (stubResolver) ResolvePublicKey(kid string, _ []hash.SHA256Hash) (crypto.PublicKey, error) {
+	if kid == "did:nuts:known#k1" {
+		return &knownKey.Priv.PublicKey, nil
+	}
+	return nil, errors.New("key not found")
+}
 
 func (w *world) open(r *run) error {
 	db, err := bbolt.CreateBBoltStore(r.path, stoabs.WithNoSync())
@@ -292,7 +480,18 @@ func (w *world) open(r *run) error {
 		r.res.Trace = append(r.res.Trace, e)
 		r.mu.Unlock()
 	}
-	st, err := dag.NewState(g, dag.NewPrevTransactionsVerifier(), dag.NewTransactionSignatureVerifier(nil))
+	g.InTx = func(tx stoabs.WriteTx, f map[string]any) {
+		// projected state: names of the universe transactions in the write set of this transaction
+		names := []string{}
+		for n, c := range w.txs {
+			if _, err := tx.GetShelfReader("documents").Get(stoabs.NewHashKey(c.ref)); err == nil {
+				names = append(names, n)
+			}
+		}
+		sort.Strings(names)
+		f["stored"] = names
+	}
+	st, err := dag.NewState(g, dag.NewPrevTransactionsVerifier(), dag.NewTransactionSignatureVerifier(stubResolver{}))
 	if err != nil {
 		return err
 	}
@@ -347,10 +546,16 @@ func (r *run) receive(gen int, sub string, ev dag.Event) (bool, error) {
 	n := r.name(ev.Hash)
 	key := sub + "/" + n
 	r.ledger[sub] = append(r.ledger[sub], n)
+	if g, ok := r.fatalGen[key]; ok && g == gen && r.w.props["C14"] {
+		r.viol("C14", "retried-after-fatal", fmt.Sprintf("subscriber %s reported a fatal error for %s and was called again without a restart", sub, n))
+	}
 	if r.finished[key] && r.w.props["C14"] {
 		r.viol("C14", "recalled-after-completion", fmt.Sprintf("subscriber %s was called again for %s after its completion had been recorded", sub, n))
 	}
 	resp := "ok"
+	if r.defResp != "" {
+		resp = r.defResp
+	}
 	if q := r.respQ[key]; len(q) > 0 {
 		resp = q[0]
 		r.respQ[key] = q[1:]
@@ -366,9 +571,15 @@ func (r *run) receive(gen int, sub string, ev dag.Event) (bool, error) {
 	case "incomplete":
 		return false, nil
 	case "fatal":
+		r.mu.Lock()
+		r.fatalGen[key] = gen
+		r.mu.Unlock()
 		return false, dag.EventFatal{Err: errors.New("scripted fatal")}
 	case "crash":
 		// the process stops while the receiver runs: completion is never recorded
+		r.mu.Lock()
+		r.killed = true
+		r.mu.Unlock()
 		inc.g.Kill()
 		return true, nil
 	}
@@ -646,9 +857,10 @@ func (r *run) quiescent(actors map[string]bool) bool {
 	return true
 }
 
-func (w *world) runScript(t *testing.T, sc script) *result {
+func (w0 *world) runScript(t *testing.T, sc script) *result {
+	w := w0.variant(sc.Defects)
 	res := &result{ID: sc.ID, Violations: []violation{}, Drift: []string{}, Trace: []map[string]any{}}
-	r := &run{w: w, res: res, ledger: map[string][]string{}, finished: map[string]bool{}, respQ: map[string][]string{}, addErr: map[string]error{}}
+	r := &run{w: w, res: res, actors: map[string]bool{}, fatalGen: map[string]int{}, ledger: map[string][]string{}, finished: map[string]bool{}, respQ: map[string][]string{}, addErr: map[string]error{}}
 	r.path = filepath.Join(w.dir, "run-"+sc.ID+".db")
 	defer os.Remove(r.path)
 	if err := copyFile(w.template, r.path); err != nil {
@@ -660,13 +872,29 @@ func (w *world) runScript(t *testing.T, sc script) *result {
 		return res
 	}
 	// scripted receiver responses, in order of appearance
-	for _, s := range sc.Steps {
+	for i, s := range sc.Steps {
 		if s.str("a") == "NotifyCall" && s.str("res") != "gone" {
 			k := s.str("s") + "/" + s.str("t")
-			r.respQ[k] = append(r.respQ[k], s.str("res"))
+			resp := s.str("res")
+			// the process stops between this delivery and its completion marking?
+			for _, nx := range sc.Steps[i+1:] {
+				if nx.str("a") == "NotifyMark" && nx.str("s") == s.str("s") && nx.str("t") == s.str("t") {
+					break
+				}
+				if nx.str("a") == "Crash" {
+					resp = "crash"
+					break
+				}
+			}
+			r.respQ[k] = append(r.respQ[k], resp)
 		}
 	}
-	actors := map[string]bool{}
+	if d, ok := sc.Default[""]; ok {
+		r.defResp = d
+	}
+	r.restarts = sc.Restarts
+	expectedCalls := map[string]int{}
+	actors := r.actors
 	lastLW := map[string]string{}
 	corruptPages := map[uint32]bool{}
 	var deferred []step
@@ -674,8 +902,13 @@ func (w *world) runScript(t *testing.T, sc script) *result {
 	for _, p := range w.in.Props {
 		props[p] = true
 	}
+	isKilled := func() bool {
+		r.mu.Lock()
+		defer r.mu.Unlock()
+		return r.killed
+	}
 	check := func(when string) {
-		if r.inc == nil || !r.quiescent(actors) {
+		if r.inc == nil || isKilled() || !r.quiescent(actors) {
 			return
 		}
 		if props["C08"] {
@@ -719,6 +952,9 @@ func (w *world) runScript(t *testing.T, sc script) *result {
 			}
 			actors[p] = true
 			inc := r.inc
+			r.mu.Lock()
+			r.res.Trace = append(r.res.Trace, map[string]any{"ev": "add.begin", "p": p, "t": c.name, "pl": s.str("pl")})
+			r.mu.Unlock()
 			sched.Go(p, func(cx context.Context) {
 				err := inc.st.Add(cx, c.tx, payload)
 				r.mu.Lock()
@@ -727,7 +963,9 @@ func (w *world) runScript(t *testing.T, sc script) *result {
 				if err != nil {
 					res = "err"
 				}
-				r.res.Trace = append(r.res.Trace, map[string]any{"ev": "add.return", "p": p, "t": c.name, "res": res})
+				if !inc.g.Dead() {
+					r.res.Trace = append(r.res.Trace, map[string]any{"ev": "add.return", "p": p, "t": c.name, "res": res})
+				}
 				r.mu.Unlock()
 			})
 			_, err := sched.Step(p, "start", "go")
@@ -783,10 +1021,16 @@ func (w *world) runScript(t *testing.T, sc script) *result {
 				}
 			}
 			return true, err
-		case "NotifyCall", "NotifyMark":
+		case "NotifyCall":
+			if s.str("res") != "gone" {
+				expectedCalls[s.str("s")+"/"+s.str("t")]++
+			}
 			return true, nil // the first notifyNow runs inside AfterCommit; retries run on their own goroutines
+		case "NotifyMark":
+			return true, nil
 		case "WritePayload":
 			c := w.txs[s.str("t")]
+			r.res.Trace = append(r.res.Trace, map[string]any{"ev": "writepayload", "t": c.name})
 			err := r.inc.st.WritePayload(context.Background(), c.tx, hash.SHA256Sum(c.payload), c.payload)
 			if err != nil {
 				r.res.Drift = append(r.res.Drift, "WritePayload: "+err.Error())
@@ -798,6 +1042,7 @@ func (w *world) runScript(t *testing.T, sc script) *result {
 				return true, err
 			}
 			corruptPages[c.clock/dag.PageSize] = true
+			r.res.Trace = append(r.res.Trace, map[string]any{"ev": "corrupt", "g": c.name, "pg": s["pg"]})
 			return true, nil
 		case "CheckPage":
 			pg := uint32(s["pg"].(float64))
@@ -811,8 +1056,32 @@ func (w *world) runScript(t *testing.T, sc script) *result {
 				}
 			}
 			delete(corruptPages, real)
+			r.res.Trace = append(r.res.Trace, map[string]any{"ev": "checkpage", "pg": s["pg"]})
 			return true, nil
 		case "Crash":
+			// let the asynchronous retry goroutines catch up with the deliveries the model has already seen
+			dl := time.Now().Add(300 * time.Millisecond)
+			for time.Now().Before(dl) {
+				r.mu.Lock()
+				behind := false
+				for k, n := range expectedCalls {
+					parts := strings.SplitN(k, "/", 2)
+					cnt := 0
+					for _, t := range r.ledger[parts[0]] {
+						if t == parts[1] {
+							cnt++
+						}
+					}
+					if cnt < n {
+						behind = true
+					}
+				}
+				r.mu.Unlock()
+				if !behind {
+					break
+				}
+				time.Sleep(time.Millisecond)
+			}
 			return true, r.crash()
 		}
 		return true, fmt.Errorf("unknown action %q", a)
@@ -823,7 +1092,10 @@ func (w *world) runScript(t *testing.T, sc script) *result {
 			break
 		}
 		// retry deferred steps first (in order), then the scripted one
-		progress := true
+		progress := !isKilled()
+		if isKilled() {
+			deferred = nil
+		}
 		for progress && len(deferred) > 0 {
 			progress = false
 			tried := map[string]bool{}
@@ -843,6 +1115,9 @@ func (w *world) runScript(t *testing.T, sc script) *result {
 					break
 				}
 			}
+		}
+		if isKilled() && s.str("a") != "Crash" {
+			continue // the process is already dead (stopped inside a receiver)
 		}
 		done, err := false, error(nil)
 		blockedActor := false
@@ -924,6 +1199,10 @@ func (r *run) crash() error {
 	}
 	r.mu.Lock()
 	r.inc = nil
+	r.killed = false
+	for a := range r.actors {
+		delete(r.actors, a) // the goroutines of the dead incarnation are gone
+	}
 	r.res.Trace = append(r.res.Trace, map[string]any{"ev": "crash"})
 	r.mu.Unlock()
 	if err := r.w.open(r); err != nil {
@@ -941,6 +1220,16 @@ func (r *run) crash() error {
 func (r *run) finish(actors map[string]bool) *result {
 	if r.inc == nil {
 		return r.res
+	}
+	r.mu.Lock()
+	k := r.killed
+	r.mu.Unlock()
+	if k {
+		// the script ended with the process dead inside a receiver: restart once more so the end state is observable
+		if err := r.crash(); err != nil {
+			r.res.Error = err.Error()
+			return r.res
+		}
 	}
 	sched := r.inc.sched
 	// run every actor to completion in a fixed order
@@ -981,6 +1270,16 @@ func (r *run) finish(actors map[string]bool) *result {
 		props[p] = true
 	}
 	r.settle()
+	for i := 0; i < r.restarts; i++ {
+		if err := r.crash(); err != nil {
+			r.res.Error = err.Error()
+			return r.res
+		}
+		r.settle()
+		if props["C14"] {
+			r.checkJobs(fmt.Sprintf("after clean restart %d", i+1))
+		}
+	}
 	if props["C08"] {
 		r.checkDerived(r.inc.st, r.inc.inner, "at the end", nil)
 	}
@@ -993,7 +1292,7 @@ func (r *run) finish(actors map[string]bool) *result {
 	}
 	// restart from disk: a fresh State over the same store must report the same
 	if props["C08"] {
-		st2, err := dag.NewState(r.inc.inner, dag.NewPrevTransactionsVerifier(), dag.NewTransactionSignatureVerifier(nil))
+		st2, err := dag.NewState(r.inc.inner, dag.NewPrevTransactionsVerifier(), dag.NewTransactionSignatureVerifier(stubResolver{}))
 		if err == nil {
 			_ = st2.Configure(core.ServerConfig{})
 			r.checkDerived(st2, r.inc.inner, "after reload from disk", nil)
@@ -1172,11 +1471,6 @@ func TestDriver(t *testing.T) {
 	enc := json.NewEncoder(bw)
 	for _, sc := range in.Scripts {
 		res := w.runScript(t, sc)
-		if os.Getenv("VERIF_KEEP_TRACE") == "" && len(res.Violations) == 0 && res.Error == "" {
-			if len(res.Trace) > 0 && !strings.HasSuffix(sc.ID, "0") {
-				res.Trace = nil
-			}
-		}
 		if err := enc.Encode(res); err != nil {
 			t.Fatal(err)
 		}
